@@ -3,7 +3,7 @@
 (* Resolve/Context/YieldBlock act on the scopes of the call site like :=, =,      *)
 (* identifier lookup, '.', and {{yield name() ctx}}.                              *)
 EXTENDS JetProg
-CONSTANTS Depth
+CONSTANTS Depth, Families     \* Families: subset of {"site", "top"}
 
 Ops == {"Let-s", "Let-x3", "Set-s", "Set-p", "Set-undef", "SetOrLet-s", "SetOrLet-x3", "SetOrLet-g", "LetGlobal-x3", "LetGlobal-s",
         "Resolve-s", "Resolve-g", "Resolve-undef", "Context", "Yield-ctx", "Yield-noctx", "Yield-undef", "tl-let", "tl-set"}
@@ -43,8 +43,10 @@ MkTop(par) ==
               ELSE <<RangeS("tr", "kv", "k", "v", ":=", ListE("ints", <<"0">>), opl \o <<P("ri3", IsSetE("x3"))>>)>>
       main == <<T("pre")>> \o body \o
               <<P("zi3", IsSetE("x3")), P("zis", IsSetE("s")), P("zg", Var("g")), T("post")>>
-  IN [ts |-> <<Tm("main", "", <<>>, main)>>, globals |-> [NoVarsMap EXCEPT !["g"] = "glG"],
-      runs |-> <<RunR("main", NoVarsMap, "D")>>, tag |-> "nilvars|" \o (IF par[2] = <<>> THEN "" ELSE "inrange|") \o PathTag(ops)]
+      \* a later execution, again without variables, sees nothing of what the calls bound
+      probe == <<T("q0"), P("qi3", IsSetE("x3")), P("qis", IsSetE("s")), P("qg", Var("g")), T("q1")>>
+  IN [ts |-> <<Tm("main", "", <<>>, main), Tm("probe", "", <<>>, probe)>>, globals |-> [NoVarsMap EXCEPT !["g"] = "glG"],
+      runs |-> <<RunR("main", NoVarsMap, "D"), RunR("probe", NoVarsMap, "D")>>, tag |-> "nilvars|" \o (IF par[2] = <<>> THEN "" ELSE "inrange|") \o PathTag(ops)]
 TopOps == {"Let-x3", "Let-s", "SetOrLet-x3", "SetOrLet-g", "LetGlobal-x3", "Resolve-g", "Resolve-undef", "Context", "Set-undef"}
 
 MkC(par) ==
@@ -61,6 +63,6 @@ MkC(par) ==
       tag |-> PathTag(path) \o "|" \o PathTag(ops)]
 
 OpSeqs == UNION {[1..n -> Ops] : n \in 1..2}
-cParams == {p \in {"site"} \X PathsUpTo(SiteKinds, Depth) \X OpSeqs : Len(p[2]) <= 1 \/ Len(p[3]) = 1}
-           \cup ({"top"} \X {<<>>, <<"range">>} \X UNION {[1..n -> TopOps] : n \in 1..2})
+cParams == (IF "site" \in Families THEN {p \in {"site"} \X PathsUpTo(SiteKinds, Depth) \X OpSeqs : Len(p[2]) <= 1 \/ Len(p[3]) = 1} ELSE {})
+           \cup (IF "top" \in Families THEN {"top"} \X {<<>>, <<"range">>} \X UNION {[1..n -> TopOps] : n \in 1..2} ELSE {})
 =============================================================================
